@@ -762,3 +762,12 @@ package xmss
 //@   after xmss.wOTSPKGen 1 assert[C01] hashFunction <= 2 ==> forall i_ :: 0 <= i_ && i_ < params.len ==> 0 <= wDigit(msg, params, i_) && wDigit(msg, params, i_) <= params.w - 1
 //@   after xmss.wOTSPKGen 1 assert[C01] hashFunction <= 2 ==> forall i_, q_ :: 0 <= i_ && i_ < params.len && 0 <= q_ && q_ < 32 ==> wpkNode(hashFunction, pubSeed, arr(addr), sig, msg, params, i_)[q_] == wgenN(hashFunction, pubSeed, arr(addr), sk, params, i_)[q_] from 1..4
 //@   ensures[C01] hashFunction <= 2 ==> len(pkFromSig) == params.keySize && len(pkGen) == params.keySize && forall i_, q_ :: 0 <= i_ && i_ < params.len && 0 <= q_ && q_ < 32 ==> pkFromSig[32*i_+q_] == pkGen[32*i_+q_] && pkGen[32*i_+q_] == wgenN(hashFunction, pubSeed, arr(addr), sk, params, i_)[q_]
+
+//@ func XMSS.GetMnemonic
+//@   names x:*xmss.XMSS |  | 
+//@   inline
+//@ func verifLemmaGetMnemonicIsEncoding
+//@   names x:*xmss.XMSS | m1:string m2:string | 
+//@   props C09
+//@   requires !isnil(x) && !isnil(x.desc)
+//@   ensures[C09] strof(m1) == strof(m2)
